@@ -32,10 +32,17 @@ class CrashInjected(BaseException):
     pass
 
 
+FDS = {}  # file descriptor -> RecFile, for writes that go through os.pwrite / os.write on fileno()
+
+
 class RecFile(object):
     def __init__(self, f, path, mode):
         self._f = f
         self._name = os.path.basename(path)
+        try:
+            FDS[f.fileno()] = self
+        except Exception:
+            pass
         if LOG_ON[0]:
             LOG.append(("open", self._name, mode))
 
@@ -61,6 +68,10 @@ class RecFile(object):
     def close(self):
         if LOG_ON[0]:
             LOG.append(("close", self._name))
+        try:
+            FDS.pop(self._f.fileno(), None)
+        except Exception:
+            pass
         return self._f.close()
 
     def flush(self):
@@ -88,12 +99,84 @@ class RecFile(object):
         return getattr(self._f, k)
 
 
+ORIG_OPEN = builtins.open
+TRACKED_NAMES = ("lru_trie.dat", "link_store.dat")
+
+
 def _rec_open(path, mode="r", *a, **k):
-    return RecFile(builtins.open(path, mode, *a, **k), path, mode)
+    return RecFile(ORIG_OPEN(path, mode, *a, **k), os.fspath(path), mode)
+
+
+def _global_open(path, mode="r", *a, **k):
+    """builtins.open / io.open while the monitors are installed: the two store files are wrapped whoever
+    opens them (pathlib.Path.open, a helper in another module), every other file is opened as usual."""
+    try:
+        base = os.path.basename(os.fspath(path))
+    except TypeError:
+        base = None
+    if base in TRACKED_NAMES:
+        return RecFile(ORIG_OPEN(path, mode, *a, **k), os.fspath(path), mode)
+    return ORIG_OPEN(path, mode, *a, **k)
+
+
+def _fd_event(fd, pos, data):
+    rf = FDS.get(fd)
+    if rf is None:
+        return
+    WRITES[0] += 1
+    if FAIL_AT[0] is not None:
+        if FAIL_AT[0] <= 0:
+            raise CrashInjected()
+        FAIL_AT[0] -= 1
+    if LOG_ON[0]:
+        LOG.append(("write", rf._name, pos, bytes(data)))
+
+
+def _install_fd_hooks():
+    """A storage layer that writes with os.pwrite / os.write on the file descriptor (no seek) is as good
+    as one that uses the file object: the same events are recorded at that boundary."""
+    if getattr(os, "_vt_fd_hooks", False):
+        return
+    _pwrite, _write, _ftruncate = getattr(os, "pwrite", None), os.write, os.ftruncate
+
+    if _pwrite is not None:
+        def pwrite(fd, data, offset):
+            _fd_event(fd, offset, data)
+            return _pwrite(fd, data, offset)
+        os.pwrite = pwrite
+
+    def write(fd, data):
+        if fd in FDS:
+            _fd_event(fd, os.lseek(fd, 0, os.SEEK_CUR), data)
+        return _write(fd, data)
+
+    def ftruncate(fd, length):
+        rf = FDS.get(fd)
+        if rf is not None:
+            WRITES[0] += 1
+            if LOG_ON[0]:
+                LOG.append(("truncate", rf._name, (length,)))
+        return _ftruncate(fd, length)
+
+    os.write = write
+    os.ftruncate = ftruncate
+    os._vt_fd_hooks = True
 
 
 def install_m1():
-    TT.open = _rec_open  # shadows the builtin inside traph.traph only
+    # shadows the builtin inside every module of the package (the files are opened in traph.traph today)
+    for name, mod in list(sys.modules.items()):
+        if (name == "traph" or name.startswith("traph.")) and mod is not None and "open" not in getattr(mod, "__dict__", {}):
+            try:
+                mod.open = _rec_open
+            except Exception:
+                pass
+    TT.open = _rec_open
+    import io
+
+    builtins.open = _global_open
+    io.open = _global_open
+    _install_fd_hooks()
     STATUS["M1"] = "on"
 
 
@@ -226,9 +309,9 @@ def store_bytes(t):
         return bytes(t.lru_trie_storage.array), bytes(t.links_store_storage.array)
     t.lru_trie_file.flush()
     t.link_store_file.flush()
-    with builtins.open(t.lru_trie_path, "rb") as f:
+    with ORIG_OPEN(t.lru_trie_path, "rb") as f:
         a = f.read()
-    with builtins.open(t.link_store_path, "rb") as f:
+    with ORIG_OPEN(t.link_store_path, "rb") as f:
         b = f.read()
     return a, b
 
